@@ -113,3 +113,41 @@ func VerifSVGEmbed(n int) {
 	}
 	vReach("end")
 }
+
+var verifStyleCases = []struct {
+	doc   string
+	calls []string // what the css minifier must be called with, in order
+}{
+	{"<svg><text><style></style> a b </text></svg>", nil},
+	{"<svg><style></style><text> a  b </text></svg>", nil},
+	{"<svg><style>a{content:\"x  y\"}</style></svg>", []string{"a{content:\"x  y\"}"}},
+	{"<svg><style type=\"text/plain\"> a { b } </style></svg>", nil},
+	{"<svg><style type=\"text/css\"> a{b} </style><style> c{d} </style></svg>", []string{"a{b}", "c{d}"}},
+	{"<svg><style>\n a{b}\n</style><g style=\" e : f \"/></svg>", []string{"a{b}", "e : f"}},
+	{"<svg><style/><text> t </text><style> g{h} </style></svg>", []string{"g{h}"}},
+	{"<svg><style><![CDATA[ i{j:\"k  l\"} ]]></style></svg>", []string{" i{j:\"k  l\"} "}},
+}
+
+// VerifSVGStyleDispatch (C11): which pieces of an svg document go to the registered CSS minifier and with which bytes:
+// only the content of style elements of the style sheet type (and style attributes), never the text that follows an
+// empty style element, and with the white space inside the style sheet untouched.
+func VerifSVGStyleDispatch(n int) {
+	c := verifStyleCases[vChoice("case", len(verifStyleCases))]
+	m := minify.New()
+	m.AddFunc("text/css", verifCSSStub(false))
+	var params map[string]string
+	if vBool("inlineparam") {
+		params = map[string]string{"inline": "1"}
+	}
+	verifCalls = nil
+	w := &vWriter{}
+	err := (&Minifier{}).Minify(m, w, &vReader{b: []byte(c.doc)}, params)
+	vReach("after-call")
+	vOutput("out", w.buf)
+	vAssert(err == nil, "no error")
+	vAssert(len(verifCalls) == len(c.calls), "the CSS minifier is called for the style sheets and style attributes of the document, and for nothing else")
+	for i := range c.calls {
+		vAssert(string(verifCalls[i].data) == c.calls[i], "called with the style sheet as written (white space inside it untouched)")
+	}
+	vReach("end")
+}
